@@ -19,7 +19,7 @@ import (
 // C12 end to end: access rules and route authentication gate every HTTP request.
 func TestVerifC12HTTP(t *testing.T) {
 	L := ev.Begin("C12", "c12-http", "exploration",
-		"access rule {none, allow v4 block, deny v4 block, allow v6 block, allow with malformed item, allow+deny, allow and deny with one malformed item next to a well-formed one} x auth scheme {none, known basic, unknown} x configured scheme map {one scheme, empty, nil} x peer (4) x X-Forwarded-For (none/inside/outside) x credentials {none, good, bad password, unknown user, malformed basic header, other scheme} through the real HTTPProxy.ServeHTTP with a real htpasswd file; oracle: 403 / 401 / 200 exactly as the statement prescribes and the upstream hit counter stays 0 unless admitted and authorised. non-trivial = case with a rule or an auth scheme")
+		"access rule {none, allow v4 block, deny v4 block, allow v6 block, allow with malformed item, allow+deny, allow and deny with one malformed item next to a well-formed one} x auth scheme {none, known basic, unknown} x configured scheme map {one scheme, empty, nil} x peer (4) x X-Forwarded-For (none/inside/outside) x credentials {none, good, bad password, unknown user, malformed basic header, other scheme} x {proxied route, redirect route} through the real HTTPProxy.ServeHTTP with a real htpasswd file; oracle: 403 / 401 / 200 exactly as the statement prescribes and the upstream hit counter stays 0 unless admitted and authorised. non-trivial = case with a rule or an auth scheme")
 	dir, err := os.MkdirTemp("", "c12")
 	if err != nil {
 		panic(err)
@@ -68,6 +68,7 @@ func TestVerifC12HTTP(t *testing.T) {
 		xff     string
 		c       cred
 		schemes int // 0: the configured scheme map, 1: an empty map (no scheme configured), 2: nil
+		redirect bool // the route answers with a redirect instead of proxying: the gate comes first all the same
 	}
 	var jobs []job
 	for _, r := range rules {
@@ -75,9 +76,12 @@ func TestVerifC12HTTP(t *testing.T) {
 			for _, p := range []string{"10.1.2.3", "11.0.0.1", "fe80::1", "10.255.0.1"} {
 				for _, x := range []string{"", "10.9.9.9", "172.16.0.1"} {
 					for _, c := range creds {
-						jobs = append(jobs, job{r, a, p, x, c, 0})
+						jobs = append(jobs, job{r, a, p, x, c, 0, false})
 						if a != "" && x == "" {
-							jobs = append(jobs, job{r, a, p, x, c, 1}, job{r, a, p, x, c, 2})
+							jobs = append(jobs, job{r, a, p, x, c, 1, false}, job{r, a, p, x, c, 2, false})
+						}
+						if (r.opt != "" || a != "") && (c.name == "none" || c.name == "good") {
+							jobs = append(jobs, job{r, a, p, x, c, 0, true})
 						}
 					}
 				}
@@ -102,6 +106,13 @@ func TestVerifC12HTTP(t *testing.T) {
 			opts += "auth=" + j.authN
 		}
 		line := "route add svc / http://" + r.upAddr + "/"
+		if j.redirect {
+			line = "route add svc / https://elsewhere.example/"
+			if opts != "" {
+				opts += " "
+			}
+			opts += "redirect=301"
+		}
 		if opts != "" {
 			line += " opts \"" + opts + "\""
 		}
@@ -125,6 +136,9 @@ func TestVerifC12HTTP(t *testing.T) {
 		}
 		authorized := j.authN == "" || (j.authN == "mybasic" && j.c.good && j.schemes == 0)
 		want, wantHits := 200, int64(1)
+		if j.redirect {
+			want, wantHits = 301, 0
+		}
 		switch {
 		case !admitted:
 			want, wantHits = 403, 0
@@ -152,6 +166,9 @@ func TestVerifC12HTTP(t *testing.T) {
 			kind = "not-401-for-rejected-credentials"
 		case rec.Code != want || hits != wantHits:
 			kind = "admitted-request-not-served"
+		}
+		if kind != "" && j.redirect {
+			kind += "/redirect-route"
 		}
 		if kind != "" {
 			if j.authN == "nope" || j.schemes != 0 {
